@@ -1,0 +1,1 @@
+//! verif-hooks: date area (read-only accessors; see mod.rs)
